@@ -1,6 +1,6 @@
 SPECIFICATION SpecD
 CONSTANTS N = 3
-  Walker = "resolve"
+  Walkers = {"resolve", "length", "xref", "pages", "outline", "nametree", "filters"}
   MaxDepth = 4
   MaxChain = 3
   StackCap = 12
@@ -9,5 +9,5 @@ CONSTANTS N = 3
   G_SCALAR = TRUE
   G_STMFIRST = TRUE
   G_CHAIN = TRUE
-INVARIANTS EmitCase NoOverflow WorkBounded
+INVARIANTS EmitCase NoOverflow WorkBounded ChainBounded
 CHECK_DEADLOCK TRUE
